@@ -105,3 +105,12 @@ func verifTracePlan(attempt int, plan Plan, seeds []Seed) {
 	}
 	verifTrace("a.planned", uint64(attempt), uint64(len(plan)), 0)
 }
+
+// verifTraceBool records an event with a flag.
+func verifTraceBool(ev string, flag bool) {
+	var a uint64
+	if flag {
+		a = 1
+	}
+	verifTrace(ev, a, 0, 0)
+}
